@@ -39,10 +39,10 @@ def obligations(tier, seed):
     obs.append(dict(name='expr/hash160(0x..)', kind='expr', fun='hash160', L=3))
     for L in (0, 1, 2):
         obs.append(dict(name='base58/roundtrip/L%d/chk0' % L, kind='b58', L=L, chk=0))
-    for n in (0, 1, 2) if tier == 'quick' else (0, 1, 2, 3):
+    for n in (0, 1) if tier == 'quick' else (0, 1, 2, 3):
         for m in (0, 1): obs.append(dict(name='bech32/roundtrip/n%d/m%d' % (n, m), kind='bech', n=n, m=m))
     for m in (0, 1):
-        for n in (0, 2) if tier == 'quick' else (0, 2, 4):
+        for n in (0, 1) if tier == 'quick' else (0, 2):
             L = 3 + n + 6
             for pos in range(3, L): obs.append(dict(name='bech32/corrupt/n%d/m%d/pos%d' % (n, m, pos), kind='bechcorrupt', n=n, m=m, pos=pos))
     return obs
